@@ -54,25 +54,26 @@ FAMILIES = {
                                         "the history above r discarded, mut + seqno-advanced, 1 ack", 5000)],
         },
         # (rig option MetaCollection: the same behaviours with the connector's own documents configured into a collection of their own)
-        "simulate": {"quick": [sim("SimGen", 150, 36), sim("SimGen", 40, 36, salt=7, rig={"MetaCollection": "meta"}), sim("SimReopen", 40, 44)],
-                     "thorough": [sim("SimGen", 2500, 44), sim("SimGen2", 1200, 44), sim("SimGen", 600, 44, salt=7, rig={"MetaCollection": "meta"}),
+        "simulate": {"quick": [sim("SimGen", 150, 36), sim("SimGen", 40, 36, salt=7, rig={"MetaCollection": "meta", "MarkerV2": True}), sim("SimReopen", 40, 44)],
+                     "thorough": [sim("SimGen", 2500, 44), sim("SimGen2", 1200, 44), sim("SimGen", 600, 44, salt=7, rig={"MetaCollection": "meta", "MarkerV2": True}),
                                   sim("SimReopen", 800, 50)]},
         "scenarios": [scen("WitReplayGen", "gen.ndjson"), scen("WitReplayGen", "wit_gen.ndjson"), scen("WitReplayReopen", "wit_reopen.ndjson"),
-                      scen("WitReplayGen", "wit_gen.ndjson", rig={"MetaCollection": "meta"})],
+                      scen("WitReplayGen", "wit_gen.ndjson", rig={"MetaCollection": "meta", "MarkerV2": True})],
     },
     # Core.tla, lifecycle: notifications from bus / API / timer, close, re-open, stream ends, Close()
     "life": {
         "driver": "core", "monitor": "MonTrace",
         "exhaustive": {
             "quick": [mc("MCLifeQ", "2 vBuckets, <=1 notification, 1 end, Close(), auto checkpoint, 1 event"),
-                      mc("MCLifeFQ", "1 vBucket, Close() with saves that fail: the final save behind / is a failing save, 1 save, 1 ack")],
+                      mc("MCLifeFQ", "1 vBucket, Close() with saves that fail: the final save behind / is a failing save, 1 save, 1 ack"),
+                      mc("MCLifeHQ", "2 vBuckets, <=2 notifications, the handler of AfterRebalanceEnd held: the next rebalance blocks on the rebalance lock")],
             "thorough": [mc("MCLife", "2 vBuckets, 1 notification, 2 stream ends of every cause (also while the session opens), Close(), 1 ack", 5000)],
         },
-        "simulate": {"quick": [sim("SimLife", 60, 45, isolate=True), sim("SimLifeF", 25, 40, isolate=True)],
-                     "thorough": [sim("SimLife", 800, 55, isolate=True), sim("SimLifeF", 400, 44, isolate=True)]},
+        "simulate": {"quick": [sim("SimLife", 60, 45, isolate=True), sim("SimLifeF", 25, 40, isolate=True), sim("SimLifeH", 20, 45, isolate=True, salt=2)],
+                     "thorough": [sim("SimLife", 800, 55, isolate=True), sim("SimLifeF", 400, 44, isolate=True), sim("SimLifeH", 300, 50, isolate=True, salt=2)]},
         "scenarios": [scen("ReplayLife", "life.ndjson", isolate=True), scen("ReplayLifeGaps", "life_gaps.ndjson", isolate=True, gaps=True),
                       scen("WitReplayLife", "wit_life.ndjson", isolate=True), scen("WitReplayLife1", "wit_life1.ndjson", isolate=True),
-                      scen("WitReplayLifeF", "wit_lifef.ndjson", isolate=True)],
+                      scen("WitReplayLifeF", "wit_lifef.ndjson", isolate=True), scen("WitReplayLifeH", "wit_lifeh.ndjson", isolate=True)],
     },
     # Core.tla, start-up faults: failing load / seqno / failover-log queries, failing stream open, checkpoint ahead
     "fault": {
